@@ -776,9 +776,14 @@ func (c *Client) Start() (addr net.Addr, err error) {
 	// Create a context for when we kill
 	c.doneCtx, c.ctxCancel = context.WithCancel(context.Background())
 
+	// Register both pipe readers (stderr below, stdout further down) before
+	// anything waits on pipesWaitGroup: if stderr is already at EOF the counter
+	// would otherwise drop to zero and be raised again while the goroutine
+	// below is in Wait, which panics ("WaitGroup is reused").
+	c.pipesWaitGroup.Add(2)
+
 	// Start goroutine that logs the stderr
 	c.clientWaitGroup.Add(1)
-	c.pipesWaitGroup.Add(1)
 	// logStderr calls c.pipesWaitGroup.Done()
 	go c.logStderr(runner.Name(), runner.Stderr())
 
@@ -814,7 +819,6 @@ func (c *Client) Start() (addr net.Addr, err error) {
 	// out of stdout
 	linesCh := make(chan string)
 	c.clientWaitGroup.Add(1)
-	c.pipesWaitGroup.Add(1)
 	go func() {
 		defer c.clientWaitGroup.Done()
 		defer c.pipesWaitGroup.Done()
